@@ -6,6 +6,7 @@
 -/
 import Proofs.Accept
 import Proofs.Extend
+import Proofs.SkipExtend
 
 open Binary Spec
 
@@ -40,6 +41,29 @@ theorem c03_prefix (env : Env) (s : Schema) (v : Val) (p q : Bytes) (h : Enc env
   simp only [Except.ok.injEq, Prod.mk.injEq] at b
   have : q = [] := by
     have := congrArg List.length b.2
+    simp only [List.length_append, List.length_nil] at this
+    exact List.eq_nil_of_length_eq_zero (by omega)
+  exact hq this
+
+/-- skips are length-checked too: a successful skip never looks past what it consumes -/
+theorem c03_skip_extend (env : Env) (f : Nat) (s : Schema) (p q r : Bytes)
+    (h : skipData f env s p = .ok r) : skipData f env s (p ++ q) = .ok (r ++ q) :=
+  SkipExtendProofs.skipData_ext env f s p r q h
+
+/-- **C03 (truncation, skipped values).** no proper prefix of a valid encoding can be *skipped* either (a value
+    dropped during schema resolution): the decoder raises, it never hands back a shorter stream -/
+theorem c03_skip_prefix (env : Env) (s : Schema) (v : Val) (p q : Bytes) (h : Enc env s v (p ++ q)) (hq : q ≠ []) :
+    ∀ f r', skipData f env s p ≠ .ok r' := by
+  intro f r' hp
+  have h1 := SkipExtendProofs.skipData_ext env f s p r' q hp
+  obtain ⟨g, hg⟩ := AcceptProofs.skipAccept h []
+  rw [List.append_nil] at hg
+  have a := MonoProofs.skipData_mono_le env (Nat.le_max_left f g) s _ _ h1
+  have b := MonoProofs.skipData_mono_le env (Nat.le_max_right f g) s _ _ hg
+  rw [a] at b
+  simp only [Except.ok.injEq] at b
+  have : q = [] := by
+    have := congrArg List.length b
     simp only [List.length_append, List.length_nil] at this
     exact List.eq_nil_of_length_eq_zero (by omega)
   exact hq this
